@@ -57,6 +57,32 @@ Proof.
   split; [unfold wf; cbn; unfold two32, two64; lia | vm_compute; congruence].
 Qed.
 
+(** [as_slice] shows exactly the bytes of [parts], for every limit; never a panic. *)
+Definition as_slice_shows_parts : Prop :=
+  forall b, wf b -> forall lim,
+    buf_as_slice b = Some (buf_parts b)
+    /\ lim_buf_as_slice {| inner := b; limit := lim |} = Some (lim_buf_parts {| inner := b; limit := lim |})
+    /\ in_alloc b (lim_buf_parts {| inner := b; limit := lim |}).
+Lemma as_slice_shows_parts_holds : as_slice_shows_parts.
+Proof.
+  intros b Hwf lim. split; [|split; [reflexivity | apply lim_buf_parts_in_alloc; exact Hwf]].
+  unfold buf_as_slice, buf_parts. f_equal. f_equal. revert Hwf. unf. intros. lia.
+Qed.
+Example as_slice_shows_parts_nonvacuous :
+  wf {| base := 4096; len := 12; cap := 16 |}
+  /\ lim_buf_as_slice {| inner := {| base := 4096; len := 12; cap := 16 |}; limit := 1024 |} = Some (4096, 12).
+Proof. split; [unfold wf; cbn; unfold two32, two64; lia | vm_compute; reflexivity]. Qed.
+
+(** Seeded change C14-k: slicing by the limit panics for a limit above the length, while
+    [len] still reports the visible bytes. *)
+Lemma lim_buf_as_slice_k_refuted :
+  exists b l, wf b /\ lim_buf_as_slice_k {| inner := b; limit := l |} = None
+              /\ lim_buf_len {| inner := b; limit := l |} = len b.
+Proof.
+  exists {| base := 4096; len := 12; cap := 12 |}, 1024.
+  split; [unfold wf; cbn; unfold two32, two64; lia | vm_compute; split; reflexivity].
+Qed.
+
 Lemma mut_set_init_spec b n :
   wf b -> n <= snd (mut_parts b) ->
   wf (mut_set_init b n) /\ len (mut_set_init b n) = len b + n
